@@ -50,6 +50,13 @@ EXTRAS = [
     {"items": [{"kind": "var"}, {"kind": "wvar", "inputs": [0]}, {"kind": "dist", "var": 1, "inputs": [0], "flag": "observed", "group": "g"}]},
     {"items": [{"kind": "var"}, {"kind": "value"}, {"kind": "dist", "var": 0, "inputs": [1], "flag": "parameter", "per_obs": False}, {"kind": "calc", "inputs": [2, 0]}]},
     {"items": [{"kind": "var", "named": False}, {"kind": "var"}, {"kind": "calc", "inputs": [0, 1], "seed": True}, {"kind": "wvar", "inputs": [2, 2], "seed": True}]},
+    # a variable with a distribution that is only reachable as an input of something else
+    {"items": [{"kind": "var"}, {"kind": "value"}, {"kind": "dist", "var": 0, "inputs": [1]}, {"kind": "calc", "inputs": [0]}]},
+    # unnamed seeded nodes (automatic names must exist before the seed nodes are named)
+    {"items": [{"kind": "var"}, {"kind": "calc", "inputs": [0], "seed": True, "named": False}, {"kind": "calc", "inputs": [0], "seed": True, "named": False}]},
+    # keyword inputs, transient dist on a weak var, argument order b-before-a
+    {"items": [{"kind": "var"}, {"kind": "calc", "inputs": [0]}, {"kind": "calc", "inputs": [1, 0], "kw": [False, True]}, {"kind": "tcalc", "inputs": [2, 1]}]},
+    {"items": [{"kind": "var"}, {"kind": "value"}, {"kind": "wvar", "inputs": [0]}, {"kind": "tdist", "var": 2, "inputs": [1], "kw": True}]},
 ]
 
 
@@ -141,7 +148,7 @@ def check_structure(res, b: programs.Built, m, where, program):
     # reference node set from the program
     want = 3  # _model_log_*
     for it in b.items:
-        want += {"value": 1, "var": 2, "calc": 1, "tcalc": 1, "wvar": 2, "dist": 1}[it["kind"]]
+        want += {"value": 1, "var": 2, "calc": 1, "tcalc": 1, "wvar": 2, "dist": 1, "tdist": 1}[it["kind"]]
         if it.get("seed"):
             want += 1
     if len(m.nodes) != want:
@@ -166,11 +173,12 @@ def check_structure(res, b: programs.Built, m, where, program):
         o = b.objs[i]
         if it["kind"] in ("calc", "tcalc", "wvar"):
             node = o.value_node if isinstance(o, lsl.Var) else o
-            got = [x for x in node.inputs]
-            ref = [b.out[j] for j in it["inputs"]]
+            got = [x for x in node.inputs] + [x for k, x in sorted(node.kwinputs.items()) if k != "seed"]
+            kwmask = it.get("kw") or [False] * len(it["inputs"])
+            ref = [b.out[j] for j, kw in zip(it["inputs"], kwmask) if not kw] + [b.out[j] for j, kw in zip(it["inputs"], kwmask) if kw]
             if len(got) != len(ref) or any(g is not r for g, r in zip(got, ref)):
                 probs.append(("edges", f"item {i}: inputs differ from the program"))
-        if it["kind"] == "dist":
+        if it["kind"] in ("dist", "tdist"):
             if o.at is not b.out[it["var"]]:
                 probs.append(("edges", f"item {i}: dist.at is not its variable's value proxy"))
     # model log prob node inputs = all dists
@@ -199,10 +207,10 @@ def check_topological(res, b, m, program, where):
     anc = []
     for i, it in enumerate(b.items):
         deps = set(it.get("inputs", []))
-        if it["kind"] == "dist":
+        if it["kind"] in ("dist", "tdist"):
             deps.add(it["var"])
         anc.append(deps)
-    caching = {i for i, it in enumerate(b.items) if it["kind"] in ("calc", "wvar", "dist")}
+    caching = {i for i, it in enumerate(b.items) if it["kind"] in ("calc", "wvar", "dist")}  # tdist/tcalc are transient
 
     def first_cached_ancestors(i, acc):
         for j in anc[i]:
@@ -213,12 +221,12 @@ def check_topological(res, b, m, program, where):
         return acc
 
     for i in caching:
-        tag = ("d", i) if b.items[i]["kind"] == "dist" else ("c", i)
+        tag = ("d", i) if b.items[i]["kind"] in ("dist", "tdist") else ("c", i)
         if tag not in pos:
             res.violation("structure", "topological", {"program": program, "where": where}, f"item {i} not evaluated by update() after assigning all inputs ({where})")
             continue
         for j in first_cached_ancestors(i, set()):
-            tj = ("d", j) if b.items[j]["kind"] == "dist" else ("c", j)
+            tj = ("d", j) if b.items[j]["kind"] in ("dist", "tdist") else ("c", j)
             # the LAST evaluation of the ancestor must precede the first of the child
             last_j = max(k for k, t in enumerate(b.order) if t == tj) if tj in pos else -1
             if last_j > pos[tag]:
@@ -425,7 +433,12 @@ class RT:
 
 
 def run_sequences(res, program, depth):
-    base = RT(program)
+    try:
+        base = RT(program)
+    except Exception as e:
+        res.violation("structure", "valid-graph-rejected", {"program": program}, f"building a valid graph failed: {type(e).__name__}: {e} ({program['items']})")
+        res.executions += 1
+        return 0
     alphabet = base.ops()
     check_structure(res, base.b, base.b.model, "fresh build", program)
     res.outcome("build", structure_sig(base.b.model))
@@ -443,7 +456,13 @@ def run_sequences(res, program, depth):
             hist = []
             for op in seq:
                 hist.append(op)
-                problems = rt.apply(op, res, hist)
+                try:
+                    problems = rt.apply(op, res, hist)
+                except Exception as e:
+                    if not core.raised_in_repo(e):
+                        raise
+                    problems = [(f"{op[0]}-raises", f"valid operation {op} failed inside liesel: {type(e).__name__}: {e}")]
+                    rt.dead = True
                 res.transitions += 1
                 for tag, msg in problems:
                     key = (tag,)
@@ -463,7 +482,10 @@ def build_variants(res, program):
     """Same program added to the builder in different ways must give the same model."""
     import liesel.model as lsl
 
-    ref = programs.Built(program)
+    try:
+        ref = programs.Built(program)
+    except Exception:
+        return  # reported by run_sequences
     ref_names = sorted(ref.model.nodes)
     ref_state = model_state(ref.model)
     check_topological(res, ref, ref.model, program, "fresh build")
@@ -478,7 +500,7 @@ def build_variants(res, program):
         if variant == "sinks":
             # only objects nothing else uses; dists are reached through their variable,
             # everything else through the recursive inputs
-            objs = [o for i, o in enumerate(b.objs) if i not in used and b.items[i]["kind"] != "dist"]
+            objs = [o for i, o in enumerate(b.objs) if i not in used and b.items[i]["kind"] not in ("dist", "tdist")]
         elif variant == "reversed":
             objs = objs[::-1]
         elif variant == "twice":
@@ -511,8 +533,13 @@ def build_variants(res, program):
             try:
                 m1 = gb.build_model(copy=True)
                 mid = shape(objs)
+                if any(n.name.startswith("_model") for n in gb.nodes):
+                    res.violation("structure", "copy-build-pollutes-builder", {"program": program}, f"after build_model(copy=True) the user's GraphBuilder holds model nodes {[n.name for n in gb.nodes if n.name.startswith('_model')]} ({program['items']})")
+                m2 = gb.build_model(copy=True)  # same builder again
                 gb2 = lsl.GraphBuilder(to_float32=program.get("to_float32", True)).add(*objs)
-                m2 = gb2.build_model(copy=True)
+                m3 = gb2.build_model(copy=True)
+                if model_state(m3) != model_state(m1):
+                    res.violation("structure", "copy-build-not-repeatable", {"program": program}, f"copy-builds from the same objects differ ({program['items']})")
             except Exception as e:
                 res.violation("structure", "copy-build-not-repeatable", {"program": program}, f"second build_model(copy=True) from the same objects failed: {type(e).__name__}: {e} ({program['items']})")
                 continue
@@ -584,6 +611,15 @@ def run_bad_graphs(res):
     expect_reject("duplicate-node-names", lambda: lsl.GraphBuilder().add(lsl.Value(1, _name="x"), lsl.Value(2, _name="x")).build_model())
     expect_reject("duplicate-node-names-deep", lambda: lsl.GraphBuilder().add(lsl.Calc(f, lsl.Value(1, _name="x"), lsl.Value(2, _name="x"), _name="c")).build_model())
     expect_reject("duplicate-var-names", lambda: lsl.GraphBuilder().add(lsl.Var(1, name="v"), lsl.Var(2, name="v")).build_model())
+    def dup_vars_distinct_nodes():
+        v1 = lsl.Var(lsl.Value(1, _name="a"), name="v")
+        v2 = lsl.Var(lsl.Value(2, _name="b"), name="w")
+        v2.name = "v"  # explicitly named value nodes keep their names: only the VAR names collide
+        v2.var_value_node.name = "b_proxy"
+        v1.var_value_node.name = "a_proxy"
+        return lsl.GraphBuilder().add(v1, v2).build_model()
+
+    expect_reject("duplicate-var-names-distinct-node-names", dup_vars_distinct_nodes)
     expect_reject("var-node-name-clash", lambda: lsl.GraphBuilder().add(lsl.Var(1, name="v"), lsl.Value(2, _name="v_value")).build_model())
     expect_reject("reserved-name", lambda: lsl.GraphBuilder().add(lsl.Value(1, _name="_model_foo")).build_model())
     expect_reject("reserved-name-input", lambda: lsl.GraphBuilder().add(lsl.Calc(f, lsl.Value(1, _name="_model_log_prob"), _name="c")).build_model())
@@ -685,7 +721,7 @@ def run_bad_graphs(res):
         return m
 
     expect_accept("auto-names-avoid-user-names", unnamed_clash, 3 + 2 + 4)
-    res.states += 17
+    res.states += 18
 
 
 def run_unit(unit):
